@@ -19,6 +19,8 @@
 //!   drop(i)            synchronous drop (→ queued removal task)
 //!   async-drop(i)      `AsyncDrop::async_drop` (streams only)
 //!   two-concurrent-new-streams(R)  two `for_match_rule(R)` calls in flight together (R ∈ {SIG, NOC})
+//!   new-stream(R)-refused-by-the-bus  the bus answers the AddMatch with LimitsExceeded: creation
+//!                      fails (offered only when R has no live subscriber, R ∈ {SIG, NOC})
 //!   drop(i)-then-new-stream-at-once  drop a stream and subscribe to its rule again before the
 //!                      queued removal has run
 //!
@@ -146,6 +148,9 @@ enum Op {
     /// Drop stream handle i and subscribe to its rule again at once, before the queued removal
     /// has run.
     DropThenNew(usize),
+    /// `for_match_rule(R)` while the bus refuses the AddMatch (LimitsExceeded): the creation fails
+    /// and nobody subscribes. Only offered when R has no live subscriber (so AddMatch is due).
+    NewRefused(usize),
 }
 
 fn label(op: &Op) -> String {
@@ -157,6 +162,7 @@ fn label(op: &Op) -> String {
         Op::AsyncDrop(i) => format!("async-drop(h{i})"),
         Op::NewPair(r) => format!("two-concurrent-new-streams({})", RULE_NAMES[*r]),
         Op::DropThenNew(i) => format!("drop(h{i})-then-new-stream-at-once"),
+        Op::NewRefused(r) => format!("new-stream({})-refused-by-the-bus", RULE_NAMES[*r]),
     }
 }
 
@@ -169,6 +175,7 @@ fn encode(op: &Op) -> Value {
         Op::AsyncDrop(i) => json!(["adrop", i]),
         Op::NewPair(r) => json!(["pair", r]),
         Op::DropThenNew(i) => json!(["dropnew", i]),
+        Op::NewRefused(r) => json!(["refused", r]),
     }
 }
 
@@ -183,6 +190,7 @@ fn decode(v: &Value) -> Option<Op> {
         "adrop" => Op::AsyncDrop(a),
         "pair" => Op::NewPair(a),
         "dropnew" => Op::DropThenNew(a),
+        "refused" => Op::NewRefused(a),
         _ => return None,
     })
 }
@@ -212,6 +220,7 @@ impl Model {
     fn valid(&self, op: &Op) -> bool {
         match op {
             Op::NewMs(_) | Op::NewProxySig | Op::NewPair(_) => true,
+            Op::NewRefused(r) => Model::is_signal_rule(*r) && self.live(*r) == 0,
             Op::DropThenNew(i) => self.hs.get(*i).map(|h| h.alive && matches!(h.kind, HK::Ms(_))).unwrap_or(false),
             Op::Clone(i) => self
                 .hs
@@ -243,6 +252,8 @@ impl Model {
                 self.hs.push(MH { kind: HK::Ms(*r), alive: true, cloned: false });
                 self.hs.push(MH { kind: HK::Ms(*r), alive: true, cloned: false });
             }
+            // the creation fails: a handle slot that never was alive
+            Op::NewRefused(r) => self.hs.push(MH { kind: HK::Ms(*r), alive: false, cloned: false }),
             Op::DropThenNew(i) => {
                 let k = self.hs[*i].kind;
                 self.hs[*i].alive = false;
@@ -355,6 +366,32 @@ fn run_history(ops: &[Op], declone: bool) -> HistResult {
                     Some(Err(e)) => {
                         note = format!(" error:{e}");
                         hs.push(RH::Ms(None));
+                        true
+                    }
+                    None => false,
+                }
+            }
+            Op::NewRefused(r) => {
+                let c = conn.clone();
+                let rl = rule(*r);
+                bus.refuse_add_match = 1;
+                let res = fakebus::run(&mut w, &mut bus, "new-stream-refused", async move {
+                    MessageStream::for_match_rule(rl, &c, None).await
+                });
+                bus.refuse_add_match = 0;
+                match res {
+                    Some(Ok(s)) => {
+                        // created although the bus said no: nobody keeps it
+                        note = " created-despite-refusal".into();
+                        drop(s);
+                        hs.push(RH::Ms(None));
+                        fakebus::pump(&mut w, &mut bus);
+                        true
+                    }
+                    Some(Err(e)) => {
+                        note = format!(" error:{e}");
+                        hs.push(RH::Ms(None));
+                        fakebus::pump(&mut w, &mut bus);
                         true
                     }
                     None => false,
@@ -504,7 +541,7 @@ fn run_history(ops: &[Op], declone: bool) -> HistResult {
             }
             Ok(true) => {}
         }
-        if !note.is_empty() {
+        if !note.is_empty() && !matches!(op, Op::NewRefused(_)) {
             out.machinery = Some(format!("{} failed:{note}", label(op)));
             return out;
         }
@@ -556,6 +593,7 @@ fn run_history(ops: &[Op], declone: bool) -> HistResult {
             Op::AsyncDrop(_) => "async-drop",
             Op::NewPair(_) => "two-concurrent-new-streams",
             Op::DropThenNew(_) => "drop-then-new-stream-at-once",
+            Op::NewRefused(_) => "new-stream-refused-by-the-bus",
         };
         let mut push = |clause: &'static str, kind: &str, r: Option<usize>, detail: String| {
             out.violations.push(StepViolation {
@@ -660,6 +698,7 @@ fn enumerate(depth: usize, n_rules: usize) -> Vec<Vec<Op>> {
         let mut ops: Vec<Op> = (0..n_rules).map(Op::NewMs).collect();
         ops.push(Op::NewProxySig);
         ops.extend((0..n_rules.min(2)).map(Op::NewPair));
+        ops.extend((0..n_rules.min(2)).map(Op::NewRefused));
         for i in 0..model.hs.len() {
             ops.push(Op::Clone(i));
             ops.push(Op::Drop(i));
